@@ -660,7 +660,7 @@ theorem success_aux (env : Env) (hwf : env.WF) (hff : env.RestoreFaultFree)
 /-! ### Rejections before the first write (any environment, any state) -/
 
 def Phase.early : Phase → Bool
-  | .method | .decode | .nodata | .backup | .parse => true
+  | .busy | .method | .decode | .nodata | .backup | .parse => true
   | _ => false
 
 theorem saveAndReload_not_early (env : Env) (st : State) (req : Req) (b d1 : Disk)
@@ -783,5 +783,85 @@ theorem demoEnv_wf (f : Option Step) : (demoEnv f).WF := by
   · intro a b h
     simp only [demoEnv, h]
     exact ⟨trivial, trivial⟩
+
+end LunarVerif.C08
+
+namespace LunarVerif.C08
+
+/-! ### Two overlapping pushes -/
+
+/-- Same tree byte for byte, same serving behaviour. -/
+def State.Equiv (s s' : State) : Prop :=
+  (∀ p, s.disk.get p = s'.disk.get p) ∧ (∀ p, s.engine.probe p = s'.engine.probe p)
+
+theorem State.Equiv.refl (s : State) : s.Equiv s := ⟨fun _ => rfl, fun _ => rfl⟩
+
+theorem State.Equiv.trans {a b c : State} (h1 : a.Equiv b) (h2 : b.Equiv c) : a.Equiv c :=
+  ⟨fun p => (h1.1 p).trans (h2.1 p), fun p => (h1.2 p).trans (h2.2 p)⟩
+
+/-- `final` is what running the pushes of the list one after the other — each on a state equivalent
+    to the one its predecessor left, each answered 200 — produces from `st`. -/
+inductive SerialFrom (env : Env) : State → List Req → State → Prop
+  | nil {st final : State} : st.Equiv final → SerialFrom env st [] final
+  | cons {st s' final : State} {r : Req} {rest : List Req} :
+      st.Equiv s' → (handle env s' r).status = 200 →
+      SerialFrom env (handle env s' r).state rest final → SerialFrom env st (r :: rest) final
+
+/-- The pushes of a two-push run that were answered 200, in the order they went through the critical section. -/
+def acceptedInOrder (a b : Req) (t : TwoResult) : Sched → List Req
+  | .aThenB | .aDuringB =>
+    (if t.ra.status = 200 then [a] else []) ++ (if t.rb.status = 200 then [b] else [])
+  | .bThenA | .bDuringA =>
+    (if t.rb.status = 200 then [b] else []) ++ (if t.ra.status = 200 then [a] else [])
+
+theorem rolledBack_equiv (env : Env) (hwf : env.WF) (hff : env.RestoreFaultFree)
+    (st : State) (hst : st.WF env) (req : Req) (hreq : req.WF)
+    (hs : (handle env st req).status ≠ 200) : st.Equiv (handle env st req).state := by
+  obtain ⟨hd, he⟩ := rollback_aux env hwf hff st hst req hreq hs
+  exact ⟨fun p => (hd p).symm, fun p => (he p).symm⟩
+
+/-- Two pushes one after the other. -/
+theorem serial_two (env : Env) (hwf : env.WF) (hff : env.RestoreFaultFree)
+    (st : State) (hst : st.WF env) (x y : Req) (hx : x.WF) (hy : y.WF) :
+    SerialFrom env st
+      ((if (handle env st x).status = 200 then [x] else []) ++
+       (if (handle env (handle env st x).state y).status = 200 then [y] else []))
+      (handle env (handle env st x).state y).state := by
+  have hst1 : (handle env st x).state.WF env := wf_preserved env hwf hff st hst x hx
+  by_cases h1 : (handle env st x).status = 200
+  · by_cases h2 : (handle env (handle env st x).state y).status = 200
+    · simp only [h1, h2, if_true, List.cons_append, List.nil_append]
+      exact .cons (State.Equiv.refl _) h1 (.cons (State.Equiv.refl _) h2 (.nil (State.Equiv.refl _)))
+    · simp only [h1, h2, if_true, if_false, List.append_nil]
+      exact .cons (State.Equiv.refl _) h1
+        (.nil (rolledBack_equiv env hwf hff _ hst1 y hy h2))
+  · have e1 := rolledBack_equiv env hwf hff st hst x hx h1
+    by_cases h2 : (handle env (handle env st x).state y).status = 200
+    · simp only [h1, h2, if_true, if_false, List.nil_append]
+      exact .cons e1 h2 (.nil (State.Equiv.refl _))
+    · simp only [h1, h2, if_false, List.append_nil]
+      exact .nil (e1.trans (rolledBack_equiv env hwf hff _ hst1 y hy h2))
+
+/-- One push alone (the other one was answered 226 and touched nothing). -/
+theorem serial_one (env : Env) (hwf : env.WF) (hff : env.RestoreFaultFree)
+    (st : State) (hst : st.WF env) (y : Req) (hy : y.WF) :
+    SerialFrom env st (if (handle env st y).status = 200 then [y] else []) (handle env st y).state := by
+  by_cases h : (handle env st y).status = 200
+  · simp only [h, if_true]
+    exact .cons (State.Equiv.refl _) h (.nil (State.Equiv.refl _))
+  · simp only [h, if_false]
+    exact .nil (rolledBack_equiv env hwf hff st hst y hy h)
+
+theorem two_pushes_aux (env : Env) (hwf : env.WF) (hff : env.RestoreFaultFree)
+    (st : State) (hst : st.WF env) (a b : Req) (ha : a.WF) (hb : b.WF) (sched : Sched) :
+    SerialFrom env st (acceptedInOrder a b (runTwo env st a b sched) sched) (runTwo env st a b sched).final := by
+  cases sched with
+  | aThenB => exact serial_two env hwf hff st hst a b ha hb
+  | bThenA =>
+    exact serial_two env hwf hff st hst b a hb ha
+  | aDuringB =>
+    exact serial_one env hwf hff st hst b hb
+  | bDuringA =>
+    exact serial_one env hwf hff st hst a ha
 
 end LunarVerif.C08
